@@ -42,6 +42,14 @@ CLAIMED = {
             "Theorems (Properties_C08.v): with the start-up order the code has today the analyzer's registry snapshot equals the CLI's registry for every pair of hand-written/embedded registries (pre-fix order refuted: it offers only the hand-written checkers); a diagnostic renders to the same 'location: checker: message' line through asDiag and through the CLI; quick fixes are forwarded field by field; for every well-formed package unit the CLI analyses each file exactly once and the analysis driver (all variants + de-duplication) covers exactly the same files once each. Tie/oracle: a workspace with in-package tests, an external test package, nested and multiple packages analysed by go-critic, gocritic, go-critic-analysis and gocritic-analysis under equivalent configurations in both flag dialects (defaults, enable-all, hand-written names, embedded names, tags, a parameter) and different package argument sets: normalised (file,line,col,checker,message) lists equal and duplicate-free, rendered lines compared with the model in Coq; analyzer -flags covers every parameter; analyzer -json suggested edits equal in-process Warning.Suggestion.",
             "Trusted: Coq kernel + vm_compute; the event-order model is a hand abstraction of Go's package initialisation (tied behaviourally by the differential run); x/tools driver de-duplication assumed as documented; partial: equality of diagnostics across package variants is measured, not proved.",
             "§5 C08"),
+    "C10": ("Coq theorems over a typed expression semantics (Model_Expr) and a transliteration of boolExprSimplify incl. go/printer (Model_BoolSimp) + rule triples (Model_Rewrites); correspondence of diagnostics on generated expressions through the public linter API; rule-source tie; compile-and-run differential oracle",
+            "Theorems (Properties_C10.v): for every environment (all variable values incl. NaN/+-Inf, all behaviours of opaque calls, any earlier call history) and every well-typed expression of the fragment, boolExprSimplify's suggestion evaluates to the same outcome with the same calls in the same order, provided removeIncDec never fires on float operands and every folded literal bound is one whose base-10 reading is its Go value (C10_bool_simplify_preserves_partial); without these two guards the statement is refuted twice (C10_bool_simplify_*_refuted). The hasFloats guard the code has is proved sufficient for invertComparison/foldRanges and necessary (NaN). Rule triples: sloppyLen(<=0), emptyStringTest, stringXbytes (len/==\"\"/!=\"\"), wrapperFunc Index/Contains, unslice preserve; timeExprSimplify and stringConcatSimplify are refuted. Tie: ~1500 generated boolean expressions per run: the model's diagnostics (which sub-expressions are reported, exact message text) are compared in Coq with the real checker's; the model's copy of 69 rule sources is compared with checkers/rules/rules.go. Oracle-only (not modelled): assignOp, valSwap, switchTrue, yodaStyleExpr, stringsCompare, bytes.Index family (compile-and-run differential); underef, newDeref, typeUnparen, unlambda are not covered.",
+            "Trusted: Coq kernel + vm_compute; converter go/ast+go/types -> Model_Expr (typeof re-checked in Coq per case); Z integers (no overflow), floats as NaN/Inf/rationals (no rounding); go/printer modelled for single-line expressions; opaque calls deterministic in the call history and panic-free; Go toolchain for the differential programs.",
+            "§5 C10"),
+    "C12": ("Coq theorems over Model_Expr for the claim-producing matchers (Model_Claims) + correspondence of diagnostics on generated expressions / type switches + instrumented execution oracle",
+            "Theorems (Properties_C12.v): sloppyLen's `len(x) >= 0` / `< 0` claims hold for the builtin len; badCond's `x < a && x > b` (constants a < b, int or float) is always false when x contains no opaque call, and every expression its matcher flags has that shape, but the matcher has no purity gate (C12_bad_cond_impure_refuted); offBy1's `x[len(x)]` never yields a value; dupSubExpr's operands are the same value without effects (float exemption shown necessary); a case entry flagged by caseOrder is unreachable for every dynamic value unless it is the untyped nil (C12_case_order_unreachable_partial, hypothesis: transitivity of types.Implements, re-checked in Coq on each generated lattice), and `case nil` after `case interface{}` is flagged although reachable (C12_case_order_nil_refuted). Tie: ~900 expressions and ~400 type switches per run, diagnostics of the five real checkers vs the model matchers compared in Coq. Not modelled: nilValReturn, dupArg, named constants, shadowed len/nil (C20).",
+            "Trusted: as C10, plus the types.Implements table emitted by the harness and the flattening of multi-type case clauses used by the instrumented switch programs.",
+            "§5 C12"),
 }
 
 NOT_APPLICABLE = {}
